@@ -2,3 +2,52 @@
 #[allow(unused_imports)]
 use super::*;
 include!("/verif/replay/in_crate/common.rs");
+use crate::core::util::crypto::generate_keys;
+
+fn balance_matches(w: &Wallet) -> Result<(), String> {
+    let mut sum: u128 = 0;
+    for k in w.unspent_slips.iter() {
+        match w.slips.get(k) { Some(s) => sum += s.amount as u128, None => return Err("an unspent key is not among the wallet's slips".into()) }
+    }
+    if sum != w.get_available_balance() as u128 { return Err(format!("available_balance {} != sum of unspent slips {}", w.get_available_balance(), sum)); }
+    Ok(())
+}
+
+/// C19: available balance == sum of the outputs listed as unspent, over random add / delete / spend / expiry sequences;
+/// transactions the wallet builds never reference the same output twice and never spend more than they consume
+#[test]
+fn balance_is_sum_of_unspent() {
+    let (pk, sk) = generate_keys();
+    let mut rng = Rng::from_env();
+    for run in 0..300 {
+        let mut w = Wallet::new(sk, pk);
+        let mut trace: Vec<String> = vec![];
+        let mut known: Vec<Slip> = vec![];
+        for _ in 0..25 {
+            match rng.below(5) {
+                0 | 1 => {
+                    let mut s = Slip::default(); s.public_key = pk; s.amount = 1 + rng.below(1000); s.block_id = 1 + rng.below(20); s.tx_ordinal = rng.below(4); s.slip_index = rng.below(3) as u8;
+                    s.slip_type = match rng.below(6) { 0 => SlipType::BlockStake, 1 => SlipType::Bound, 2 => SlipType::MinerOutput, _ => SlipType::Normal };
+                    s.generate_utxoset_key();
+                    w.add_slip(s.block_id, s.tx_ordinal, &s, true, None);
+                    trace.push(format!("add({:?},{})", s.slip_type, s.amount));
+                    known.push(s);
+                }
+                2 => { if !known.is_empty() { let k = rng.below(known.len() as u64) as usize; let s = known.remove(k); w.delete_slip(&s, None); trace.push(format!("delete({})", s.amount)); } }
+                3 => {
+                    let want = rng.below(1500);
+                    let (inputs, outputs) = w.generate_slips(want, None, 10, 100);
+                    trace.push(format!("spend({})→in {:?} out {:?}", want, inputs.iter().map(|s| s.amount).collect::<Vec<_>>(), outputs.iter().map(|s| s.amount).collect::<Vec<_>>()));
+                    let mut keys: Vec<SaitoUTXOSetKey> = inputs.iter().filter(|s| s.amount > 0).map(|s| s.get_utxoset_key()).collect();
+                    let n = keys.len(); keys.sort(); keys.dedup();
+                    if keys.len() != n { witness(format!("run {}: generate_slips returned the same output twice: {:?}", run, trace)); }
+                    let sin: u128 = inputs.iter().map(|s| s.amount as u128).sum(); let sout: u128 = outputs.iter().map(|s| s.amount as u128).sum();
+                    if sout > sin { witness(format!("run {}: change {} exceeds inputs {}: {:?}", run, sout, sin, trace)); }
+                    if sin >= want as u128 && sout != sin - want as u128 { witness(format!("run {}: change {} != inputs {} - requested {}: {:?}", run, sout, sin, want, trace)); }
+                }
+                _ => { let cut = rng.below(20); w.remove_old_slips(cut); known.retain(|s| s.block_id >= cut); trace.push(format!("expire(<{})", cut)); }
+            }
+            if let Err(e) = balance_matches(&w) { witness(format!("run {}: {} after {:?}", run, e, trace)); }
+        }
+    }
+}
